@@ -50,6 +50,7 @@ TrJoin     == /\ Ev.op = "join"
               /\ \/ Ev.out = "ok" /\ \E v \in Both : Join(Ev.a, Ev.m, Ev.p, v)
                  \/ Ev.out = "DuplicateAgentError" /\ JoinRejectedDup(Ev.a, Ev.m)
                  \/ Ev.out = "Exception" /\ JoinRejectedOOB(Ev.a, Ev.m, Ev.p)
+                 \/ Ev.out = "KeyError" /\ (Spatial(Ev.m) => PlaceOK(Ev.m, Ev.p)) /\ JoinHalfway(Ev.a, Ev.m)
 TrLeave    == /\ Ev.op = "leave"
               /\ \/ Ev.out = "ok" /\ \E v \in Both : Leave(Ev.m, Ev.id, v) /\ ~(v = "mech" /\ LeaveIsF2(Ev.m, Ev.id))
                  \/ Ev.out = "KeyError" /\ IdTaken(Ev.m, Ev.id) /\ LeaveIsF2(Ev.m, Ev.id) /\ Leave(Ev.m, Ev.id, "mech")
@@ -65,6 +66,13 @@ TrDetach   == /\ Ev.op = "detach"
 TrRegister == /\ Ev.op = "register"
               /\ \/ Ev.out = "ok" /\ \E v \in Both : RegisterManual(Ev.a, Ev.T, v)
                  \/ Ev.out = "KeyError" /\ RegisterRejected(Ev.a, Ev.T)
+\* the low-level listing calls on their own (the owner need not be resident)
+TrRegisterRaw == /\ Ev.op = "register_raw"
+                 /\ \/ Ev.out = "ok" /\ RegisterRaw(Ev.m, Ev.a, Ev.T, Ev.s)
+                    \/ Ev.out = "KeyError" /\ RegisterRawRejected(Ev.m, Ev.a, Ev.T, Ev.s)
+TrDeregisterRaw == /\ Ev.op = "deregister_raw"
+                   /\ \/ Ev.out = "ok" /\ DeregisterRaw(Ev.m, Ev.a, Ev.T, Ev.s)
+                      \/ Ev.out = "KeyError" /\ DeregisterRawRejected(Ev.m, Ev.a, Ev.T, Ev.s)
 \* model.set_environment(env) for an environment that may already be populated: nothing observable changes
 TrInstall  == Ev.op = "install" /\ Ev.out = "ok" /\ UNCHANGED vars
 TrLookup   == /\ Ev.op = "lookup" /\ UNCHANGED vars
@@ -113,7 +121,7 @@ TrGeom == /\ Ev.op = "geom" /\ Ev.out = "ok" /\ UNCHANGED vars
 TraceInit == /\ Init /\ tid \in 1..Len(Traces) /\ l = 1
 
 TraceNext == /\ l <= Len(Traces[tid]) /\ l' = l + 1 /\ UNCHANGED tid
-             /\ (TrNewModel \/ TrNewAgent \/ TrInstall \/ TrJoin \/ TrLeave \/ TrAttach \/ TrDetach \/ TrRegister \/ TrLookup
+             /\ (TrNewModel \/ TrNewAgent \/ TrInstall \/ TrJoin \/ TrLeave \/ TrAttach \/ TrDetach \/ TrRegister \/ TrRegisterRaw \/ TrDeregisterRaw \/ TrLookup
                  \/ TrMove \/ TrMoveTo \/ TrMoveSat \/ TrDims \/ TrGeom \/ TrAgentsAt \/ TrGetAgents \/ TrPick \/ TrShuffle)
              /\ ObsOK(Ev.obs, world', agents', env', pool', pos')
 
